@@ -508,6 +508,22 @@ def C18(ctx):
     slines = [x for x in open(scases).read().split("\n") if x and ('"readyIn":0' not in x or '"pendIn":0' not in x)]
     if q:
         slines = slines[:: max(1, len(slines) // 300)]
+    # pairs are polled alternately (A, B, A, B, ...). Pair a VALID request whose provider makes it wait (A) with a
+    # different request (other carrier) that also gets as far as the key lookup (B: valid, or only its signature
+    # wrong), so that B runs while A is suspended; then the remaining cases two by two.
+    def idx_of(x):
+        return json.loads(x)["id"]
+    A = [x for x in slines if idx_of(x)[6] == 1]
+    B = [x for x in slines if idx_of(x)[6] in (1, 3, 6)]
+    pairs, used = [], set()
+    for a in A:
+        b = next((y for y in B if y not in used and y != a and idx_of(y)[7] != idx_of(a)[7]), None)
+        if b is None:
+            break
+        used.add(a)
+        used.add(b)
+        pairs += [a, b]
+    slines = pairs + [x for x in slines if x not in used]
     with open(scases, "w") as w:
         w.write("\n".join(slines) + "\n")
     str_ = hrun(ctx, scases, "reference-pending")
